@@ -27,7 +27,11 @@ var solvers = []solverSpec{
 }
 
 func runSolver(s solverSpec, file string, timeout int) (string, string, float64) {
-	ctx, cancel := context.WithTimeout(context.Background(), time.Duration(timeout+2)*time.Second)
+	return runSolverCtx(context.Background(), s, file, timeout)
+}
+
+func runSolverCtx(parent context.Context, s solverSpec, file string, timeout int) (string, string, float64) {
+	ctx, cancel := context.WithTimeout(parent, time.Duration(timeout+2)*time.Second)
 	defer cancel()
 	a := s.args(file, timeout)
 	cmd := exec.CommandContext(ctx, a[0], a[1:]...)
@@ -275,9 +279,11 @@ func (e *Engine) discharge(ob *Obligation, idx int) {
 		name, res, out string
 	}
 	ch := make(chan result, len(atts))
+	race, stopRace := context.WithCancel(context.Background())
+	defer stopRace()
 	for _, a := range atts {
 		go func(a attempt) {
-			r, o, _ := runSolver(a.s, a.file, e.timeout)
+			r, o, _ := runSolverCtx(race, a.s, a.file, e.timeout)
 			enc := ""
 			if a.file == f2 {
 				enc = "+axioms"
@@ -290,6 +296,8 @@ func (e *Engine) discharge(ob *Obligation, idx int) {
 		r := <-ch
 		if r.res == "unsat" && proved == "" {
 			proved = r.name
+			stopRace() // the others are only racing for the same answer
+			break
 		}
 		if r.res == "sat" && satBy == "" && !strings.HasPrefix(r.name, "z3+") && r.name != "z3" {
 			// (a `sat` of z3 4.8.12 on goals with recursive definitions/quantifiers proved unreliable; ignored)
